@@ -18,8 +18,9 @@ METRICS = ['mse', 'median_diff_ratio']
 
 
 def cases(tier):
+  yield {'laws': True}
   yield from universe.graph_cases([(1, eg.T21 + eg.U, 'all', 'none')],
-                                  {'rp': 'p12', 'nd': 2})
+                                  {'rp': 'p12', 'nd': 3})
   yield from universe.graph_cases(
       [(2, eg.T21 + eg.U, 'first', 'one')], {'rp': 'p12', 'nd': 1},
       sigrev=(tier == 'thorough'))
@@ -108,7 +109,7 @@ def oracle(ctx):
   fm, qm = ctx.fm, ctx.pm
   si, key = 0, built.keys[0]
   nd = ctx.case.get('nd', 1)
-  kinds = [ctx.dkind] + (['alt'] if nd > 1 else [])
+  kinds = [ctx.dkind] + (['alt'] if nd > 1 else []) + (['pos'] if nd > 2 else [])
   dataset = [built.input_data(0, k) for k in kinds]
   fs = fm.subs[si]
   in_names = {fs.tensors[t].name for t in fs.inputs}
@@ -210,5 +211,58 @@ def oracle(ctx):
   return fails
 
 
+LAW_VALUES = [0.0, 1.0, -2.5, 1e-9, float('inf'), float('-inf'), float('nan')]
+
+
+def run_laws(case):
+  """Metric laws on a finite alphabet of argument pairs, incl. non-finite
+  values in either operand (the metric functions sanitise NaN/inf)."""
+  import itertools
+  from vf import findings
+  env.lib()
+  from ai_edge_quantizer.utils import validation_utils
+  res = {'evals': 0, 'nontrivial': 0, 'hashes': [], 'fails': [], 'states': 0,
+         'transitions': 0, 'traces': 0, 'counts': {}}
+  arrays = [np.array(p, dtype=np.float32)
+            for p in itertools.product(LAW_VALUES, repeat=2)]
+  only = case.get('only')
+  for mname in METRICS:
+    fn = validation_utils.get_validation_func(mname)
+    for a in arrays:
+      for b in arrays:
+        sub = f'laws|{mname}|{a.tolist()}|{b.tolist()}'
+        if only is not None and only != sub:
+          continue
+        res['evals'] += 1
+        res['states'] += 1
+        got = float(fn(a, b))
+        want = metric(mname, a, b)
+        bad = None
+        if not (got >= 0):
+          bad = ('metric_negative', f'{got}')
+        elif not np.isclose(got, want, rtol=1e-5, atol=0) and not (
+            np.isinf(got) and np.isinf(want)):
+          bad = ('metric_value_nonfinite_args', f'{got} expected {want}')
+        elif np.array_equal(a, b, equal_nan=True) and got != 0.0:
+          bad = ('metric_not_zero_on_equal', f'{got}')
+        elif mname == 'mse':
+          back = float(fn(b, a))
+          if not (np.isclose(got, back, rtol=1e-6, atol=0) or
+                  (np.isinf(got) and np.isinf(back))):
+            bad = ('mse_not_symmetric', f'{got} vs {back}')
+        if bad:
+          res['fails'].append(findings.fail(PROP, bad[0], f'{sub}: {bad[1]}',
+                                            sub, {}, group=bad[0] + mname))
+        else:
+          res['nontrivial'] += 1
+  res['hashes'] = ['laws-%d' % k for k in range(min(res['nontrivial'], 64))]
+  res['traces'] = res['evals']
+  res['transitions'] = res['evals']
+  res['sample'] = {'laws': 'all pairs of length-2 arrays over ' + str(LAW_VALUES)}
+  return res
+
+
 def run_case(case, note, skip):
+  if case.get('laws'):
+    return run_laws(case)
   return common.run_graph_case(PROP, case, note, skip, recipe_plan, oracle)
